@@ -211,6 +211,9 @@ def check_program(prog, res, tier, fam):
                     else:
                         group.append(build(lines) + ld + ct + b'\n')
                 variants.append(('comment-group', i, group, ct))
+        # the last line left unterminated, with and without blanks after it: one output for all of them
+        nonl = build(lines)[:-1]
+        variants.append(('eof-group', n - 1, [nonl, nonl + b' ', nonl + b'\t ', nonl + b'    '], None))
         j = 0
         for kind, i, payload, extra in variants:
             w = widths[j % len(widths)]
@@ -244,11 +247,11 @@ def check_program(prog, res, tier, fam):
                     continue
                 case = {'src': payload[0], 'width': w, 'family': fam, 'variant': kind, 'base': base, 'group': payload}
                 if not check_output_shape(prog, payload[0], outs[0], w, res, case,
-                                          ('comment%s|' % extra.decode()[:2] if extra else 'blank|') + tail):
+                                          ('comment%s|' % extra.decode()[:2] if extra else 'eof|' if kind == 'eof-group' else 'blank|') + tail):
                     continue
                 for src, o in zip(payload[1:], outs[1:]):
                     if o != outs[0]:
-                        what = ('comment:%s' % extra.decode()[:2]) if kind == 'comment-group' else 'blank-run'
+                        what = ('comment:%s' % extra.decode()[:2]) if kind == 'comment-group' else 'eof-blanks' if kind == 'eof-group' else 'blank-run'
                         res.violation('C10|%s-sensitive' % what,
                                       'luafmt(%r, %d) = %r but luafmt(%r, %d) = %r' % (payload[0], w, outs[0], src, w, o),
                                       {'src': src, 'width': w, 'family': fam, 'variant': kind, 'base': base,
